@@ -349,7 +349,7 @@ impl DateFilter for ds::MonthdayRange {
                 let end_month: u32 = *range.end() as _;
 
                 let start = NaiveDate::from_ymd_opt(year, *range.start() as _, 1)?;
-                let end = {
+                let first_after_end = {
                     if start_month <= end_month && end_month < 12 {
                         NaiveDate::from_ymd_opt(year, end_month + 1, 1)?
                     } else {
@@ -357,6 +357,8 @@ impl DateFilter for ds::MonthdayRange {
                     }
                 };
 
+                // Bounds are inclusive: the range ends on the last day of its last month.
+                let end = first_after_end.pred_opt()?;
                 Some(next_change_from_bounds(date, [start], [end]))
             }
             ds::MonthdayRange::Date {
